@@ -66,7 +66,7 @@ def main():
     ev = gencode.eval_cases(ctx, "cases", imports, b, [(c[0], c[1]) for c in cases], "gcase", gencode.GCASE_DEFS, shard=40)
     print("coq %.1fs" % (time.time() - t0), {k: len(v) for k, v in ev.items()}, "of", len(cases))
     shown = 0
-    for kind in ("STD", "STRICT", "VAL", "EQ"):
+    for kind in ("STD", "STRICT", "VAL", "EQ", "WT", "SPEC"):
         for i in ev[kind][:4]:
             sid, term, j, r = cases[i]
             print("=====", kind, j["id"], b.schemas[sid][1])
@@ -76,6 +76,8 @@ def main():
             body = "Definition c : gcase := %s.\n" % term
             what = {"STD": "map (std_roundtrip ctx p n) docs", "STRICT": "(map (strict_object ctx p n) docs, map (strict_roundtrip ctx p n) docs)",
                     "VAL": "map (model_validate ctx p n) docs",
+                    "WT": "map (fun v => (wt ctx (TRef attrs0 p n) v, v)) (ok_values ctx p n docs)",
+                    "SPEC": "let vs := ok_values ctx p n docs in map (fun a => map (fun b => (keys_aligned a b, eqc ctx (TRef attrs0 p n) false a b, vsim a b, json_eqb (erase_empty (encode ctx (TRef attrs0 p n) a)) (erase_empty (encode ctx (TRef attrs0 p n) b)))) vs) vs",
                     "EQ": "model_eq_matrix ctx p n (map (decode_object ctx p n) docs ++ map (strict_object ctx p n) docs)"}[kind]
             body += "Eval vm_compute in (let '(ctx, p, n, docs, obs, mat) := c in (%s)).\n" % what
             rc, out = gencode.coq_print(ctx, "dbg_%d" % i, imports, b, [sid], body)
